@@ -1252,8 +1252,8 @@ let mul0 st arg1 arg2 round =
   if negb (rnd_in round (RDown :: (RUp :: [])))
   then Raise ValueError
   else bind (pydivmod (Z.mul v1_1 v2_2) st.f_scale) (fun x ->
-         let (v1_3, _) = x in
-         if rnd_eqb round RUp
+         let (v1_3, rem_4) = x in
+         if (&&) (truthy rem_4) (rnd_eqb round RUp)
          then let v1_5 = Z.add v1_3 Big_int_Z.unit_big_int in Ok v1_5
          else Ok v1_3)
 
